@@ -554,6 +554,26 @@ def sweep_table(repo, budget, seed, binary=None, aspect=None):
                     case = json.dumps({"formula": f, "ordering": None, "options": args[:1] + [label], "channel": "table"})
                     return {"mode": "clitable", "case": case, "expected": "the same table / listing as with --evaluate and one run:\n" + "\n".join(want)[:300],
                             "actual": f"exit {pp.returncode}\n" + "\n".join(got_lines)[:300]}, checked, ""
+            # options compose: every output section is printed independently, in the fixed order -r, -t, -v
+            def out_of(opts):
+                rr = _run(binary, opts + ["--evaluate=" + f], tmp)
+                return None if rr is None or rr[0] != 0 else rr[1]
+            for combo in (["-t", "-v"], ["-r", "-t"], ["-r", "-t", "-v"], ["-t", "-v", "-f", "true"], ["-v", "-t", "-f", "false"], ["-m", "-t", "-v"], ["-c", "true", "-t", "-v"]):
+                checked += 1
+                extra = []
+                for fl in ("-f", "-c"):
+                    if fl in combo:
+                        extra += [fl, combo[combo.index(fl) + 1]]
+                if "-m" in combo:
+                    extra += ["-m"]
+                parts = [out_of([o] + extra) for o in ("-r", "-t", "-v") if o in combo]
+                whole = out_of(combo)
+                if whole is None or any(x is None for x in parts):
+                    continue
+                if whole != "".join(parts):
+                    case = json.dumps({"formula": f, "ordering": None, "options": combo, "channel": "table"})
+                    return {"mode": "clitable", "case": case, "expected": "the sections each option prints on its own, in the order -r, -t, -v:\n" + "".join(parts)[:300],
+                            "actual": whole[:300]}, checked, ""
             for spell, canon in (("True", "true"), ("T", "true"), ("t", "true"), ("1", "true"), ("False", "false"), ("F", "false"), ("f", "false"),
                                  ("0", "false"), ("Any", "any"), ("A", "any"), ("a", "any"), ("*", "any")):
                 checked += 1
